@@ -8,7 +8,7 @@ let fault_of (buf : BinNums.coq_Z list) (o : C02Model.rop) : int =
   match C02Model.writes_fixed s o with [] -> 0 | _ -> 1
 
 let rop_of = function
-  | "layers" -> C02Model.RLayers | "string" | "gostring" | "layerstring" | "flows" -> C02Model.RString
+  | "layers" | "lookups" -> C02Model.RLayers | "string" | "gostring" | "layerstring" | "flows" -> C02Model.RString
   | "dump" -> C02Model.RDump | "verify" -> C02Model.RVerify | s -> failwith ("reader " ^ s)
 
 let run (id : string) (ops : string list) (out : out_channel) =
